@@ -5,7 +5,7 @@ import vlib
 PROP_FILES = ['Properties/C19']
 EXTRA_OBLIGATION_FILES = ['Proofs/AtomPanel']
 TRUSTED = [
-    'atomic steps of the hand-written model as GENERATED obligations (Proofs/AtomPanel.v, re-proved on every run about coq/Gen/Atomicity.v; in a private re-generated copy under VERIF_EXTRA_OVERLAY): tools/lockscan (go/ast, syntactic types) is trusted to list, per function of internal/{server,multiplex,common,client}, every field access / call / sync/atomic operation with the critical sections (Lock..Unlock / RLock..RUnlock / deferred unlock, mutex identity by name) it lies in, every sync.Pool.Put with the later mentions of the object, and every variable a go statement shares with its spawner (anything it cannot resolve is in atomicity_errors, which must be empty); it does not follow calls (a region is what one function writes between Lock and Unlock), does no alias analysis, treats callbacks as running with no lock held, and counts call sites, not executions (a loop around one call site is invisible)',
+    'atomic steps of the hand-written model as GENERATED obligations (Proofs/AtomPanel.v, re-proved on every run about coq/Gen/Atomicity.v; in a private re-generated copy under VERIF_EXTRA_OVERLAY): tools/lockscan (go/ast, syntactic types) is trusted to list, per function of internal/{server,multiplex,common,client}, every field access / call / sync/atomic operation with the critical sections (Lock..Unlock / RLock..RUnlock / deferred unlock, mutex identity by name) it lies in, every sync.Pool.Put with the later mentions of the object, and every variable a go statement shares with its spawner (anything it cannot resolve is in atomicity_errors, which must be empty); it does not follow calls (a region is what one function writes between Lock and Unlock), does no alias analysis, treats callbacks as running with no lock held, and counts call sites, not executions (a loop around one call site is invisible); who removes entries (AtomReplay/AtomPanel/AtomMux): the scanner distinguishes element stores (w), delete/clear (del), assignment of the whole field (set), address-of (addr) and the map being handed on as a value (val); a delete on a local map is recorded under the name of that local',
     'Coq 8.16.1 kernel incl. vm_compute (no native_compute); theorems of Properties/C19.v: Closed under the global context',
     'hand-written model coq/Model/Bucket.v of juju/ratelimit v1.0.2 (take / adjustavailableTokens / currentTick in integer ticks, unbounded Z instead of int64: the values driven stay below 2^62), Wait = ideal sleep of the returned duration, MakeValve: capacity = rate',
     'NewBucketWithRate computes fillInterval and its 1 % test in float64; the model reproduces the search in integers (exact while 1e9*quantum < 2^53) and its RESULT (quantum, fillInterval, capacity) is compared with the library for every rate used and ~150 more on every run',
